@@ -217,7 +217,24 @@ func (g *adaptive) step() bool {
 	if n > 30 {
 		return g.emit(psref.TX("pop"))
 	}
-	switch g.draw(23, "action") {
+	switch g.draw(24, "action") {
+	case 23:
+		// A name is executed, given another value without `def` (stored with
+		// put into the dictionary that holds it, or copied over from another
+		// dictionary), and executed again: every execution looks the name up
+		// anew.
+		name := []string{"w1", "w2", "a"}[g.draw(3, "restorename")]
+		toks := []psref.Tok{psref.TL(name), g.genInt(), psref.TX("def"), psref.TX(name)}
+		switch g.draw(3, "restorehow") {
+		case 0:
+			toks = append(toks, psref.TX("currentdict"), psref.TL(name), g.genInt(), psref.TX("put"))
+		case 1:
+			toks = append(toks, psref.TX("userdict"), psref.TL(name), g.genStringLit(), psref.TX("put"))
+		default:
+			toks = append(toks, psref.TX("<<"), psref.TL(name), g.genInt(), psref.TX(">>"), psref.TX("currentdict"), psref.TX("copy"), psref.TX("pop"))
+		}
+		g.feat["name-restored-without-def"] = true
+		return g.emit(append(toks, psref.TX(name))...)
 	case 22:
 		// dictionary enumerations inside dictionary enumerations (bodies
 		// whose effect does not depend on the order)
